@@ -36,3 +36,87 @@ MUTANTS += [
     {"id": "C03-benign-candidate-assign", "prop": "C03", "benign": True,
      "edits": [("src/decoder.rs", "                    self.item_candidate.replace((event, self.buffer.len()));", "                    let size = self.buffer.len();\n                    self.item_candidate.replace((event, size));")]},
 ]
+
+
+# ---- robustness: behaviour-preserving refactorings of decode()/decode_byte()/take_candidate() that the rules must see through, and near-miss breaking variants
+_D = "src/decoder.rs"
+_INPUT_LOOP = ("        let mut consumed = 0;\n        let mut output = None;\n        for byte in input.fill_buf()?.iter() {\n            consumed += 1;\n"
+               "            if let Some(item) = self.decode_byte(*byte) {\n                output.replace(item);\n                break;\n            }\n        }\n")
+_PENDING = ("            let item = self.decode_byte(byte);\n            if item.is_some() {\n                return Ok(item);\n            }\n")
+_TAG_MATCH = ("                    let event = match tag {\n                        MatcherTag::Item(event) => Ok(event.clone()),\n"
+              "                        MatcherTag::Matcher(index) => self.automata.matchers[*index]\n                            .decode(&self.buffer)\n"
+              "                            .map_or_else(|| Err(self.buffer.clone()), |item| Ok(item)),\n                    };\n")
+_TAKE = "            self.rescheduled.extend(self.buffer.drain(size..).rev());\n"
+MUTANTS += [
+    {"id": "C03-benign-find-map", "prop": "C03", "benign": True,
+     "edits": [(_D, _INPUT_LOOP, "        let mut consumed = 0;\n        let output = input.fill_buf()?.iter().find_map(|byte| {\n            consumed += 1;\n            self.decode_byte(*byte)\n        });\n")]},
+    {"id": "C03-benign-any-closure", "prop": "C03", "benign": True,
+     "edits": [(_D, _INPUT_LOOP, "        let mut consumed = 0;\n        let mut output = None;\n        let _found = input.fill_buf()?.iter().copied().any(|byte| {\n            consumed = 1 + consumed;\n"
+                                 "            output = self.decode_byte(byte);\n            output.is_some()\n        });\n")]},
+    {"id": "C03-benign-copied-loop", "prop": "C03", "benign": True,
+     "edits": [(_D, _INPUT_LOOP, "        let mut consumed = 0;\n        let mut output = None;\n        for byte in input.fill_buf()?.iter().copied() {\n            consumed = consumed + 1;\n"
+                                 "            if let Some(item) = self.decode_byte(byte) {\n                output = Some(item);\n                break;\n            }\n        }\n")]},
+    {"id": "C03-benign-fill-buf-match", "prop": "C03", "benign": True,
+     "edits": [(_D, "        for byte in input.fill_buf()?.iter() {\n            consumed += 1;\n            if let Some(item) = self.decode_byte(*byte) {",
+                "        let chunk = match input.fill_buf() {\n            Ok(chunk) => chunk,\n            Err(error) => return Err(error.into()),\n        };\n"
+                "        for byte in chunk {\n            consumed += 1;\n            if let Some(item) = self.decode_byte(*byte) {")]},
+    {"id": "C03-benign-scan-helper-returns-count", "prop": "C03", "benign": True,
+     "edits": [(_D, _INPUT_LOOP + "        input.consume(consumed);\n\n        Ok(output)\n    }\n}\n\nimpl<T: Clone + Ord> MatcherDecoder<T> {\n",
+                "        let (consumed, output) = self.scan(input.fill_buf()?);\n        input.consume(consumed);\n\n        Ok(output)\n    }\n}\n\nimpl<T: Clone + Ord> MatcherDecoder<T> {\n"
+                "    /// Feed bytes until an item is produced, returns number of bytes used\n    fn scan(&mut self, chunk: &[u8]) -> (usize, Option<Result<T, MatcherBuffer>>) {\n"
+                "        let mut used = 0;\n        for byte in chunk.iter() {\n            used += 1;\n            if let Some(item) = self.decode_byte(*byte) {\n                return (used, Some(item));\n            }\n        }\n        (used, None)\n    }\n\n")]},
+    {"id": "C03-benign-pending-if-let", "prop": "C03", "benign": True,
+     "edits": [(_D, _PENDING, "            if let Some(item) = self.decode_byte(byte) {\n                return Ok(Some(item));\n            }\n")]},
+    {"id": "C03-benign-tags-first", "prop": "C03", "benign": True,
+     "edits": [(_D, "                        .iter()\n                        .next()\n                        .expect(\"[MatcherDecoder] found untagged accepting state\");",
+                "                        .first()\n                        .expect(\"[MatcherDecoder] found untagged accepting state\");")]},
+    {"id": "C03-benign-tags-iter-min", "prop": "C03", "benign": True,
+     "edits": [(_D, "                        .iter()\n                        .next()\n                        .expect(\"[MatcherDecoder] found untagged accepting state\");",
+                "                        .iter()\n                        .min()\n                        .expect(\"[MatcherDecoder] found untagged accepting state\");")]},
+    {"id": "C03-benign-decode-tag-helper", "prop": "C03", "benign": True,
+     "edits": [(_D, _TAG_MATCH, "                    let event = self.decode_tag(tag);\n"),
+               (_D, "    /// Take last successfully parsed item\n",
+                "    /// Decode event from the buffer content given the tag of the accepting state\n    fn decode_tag(&self, tag: &MatcherTag<T>) -> Result<T, MatcherBuffer> {\n"
+                "        match tag {\n            MatcherTag::Matcher(index) => self.automata.matchers[*index]\n                .decode(&self.buffer)\n                .ok_or_else(|| self.buffer.clone()),\n"
+                "            MatcherTag::Item(event) => Ok(event.clone()),\n        }\n    }\n\n    /// Take last successfully parsed item\n")]},
+    {"id": "C03-benign-reject-helper", "prop": "C03", "benign": True,
+     "edits": [(_D, "                let event = self.take_candidate().unwrap_or_else(|| {\n                    if self.buffer.len() > 1 {\n                        self.rescheduled.push(byte); // re-schedule current byte for parsing\n"
+                    "                        self.buffer.pop();\n                    }\n                    self.automata_state = self.automata.automata.start();\n                    Err(std::mem::take(&mut self.buffer))\n                });\n",
+                "                let event = match self.take_candidate() {\n                    Some(event) => event,\n                    None => self.reject(byte),\n                };\n"),
+               (_D, "    /// Take last successfully parsed item\n",
+                "    /// Neither transition nor candidate is available, reject buffer content\n    fn reject(&mut self, byte: u8) -> Result<T, MatcherBuffer> {\n        if 1 < self.buffer.len() {\n"
+                "            self.unread(byte);\n            self.buffer.pop();\n        }\n        self.automata_state = self.automata.automata.start();\n        Err(std::mem::take(&mut self.buffer))\n    }\n\n"
+                "    fn unread(&mut self, byte: u8) {\n        self.rescheduled.push(byte);\n    }\n\n    /// Take last successfully parsed item\n")]},
+    {"id": "C03-benign-reschedule-pop-loop", "prop": "C03", "benign": True,
+     "edits": [(_D, _TAKE, "            while self.buffer.len() > size {\n                let last = self.buffer.pop().expect(\"buffer is longer than the candidate\");\n                self.rescheduled.push(last);\n            }\n")]},
+    {"id": "C03-benign-reschedule-guarded-hoisted", "prop": "C03", "benign": True,
+     "edits": [(_D, _TAKE, "            debug_assert!(size <= self.buffer.len());\n            if size < self.buffer.len() {\n                let tail = self.buffer.drain(size..);\n                self.rescheduled.extend(tail.rev());\n            }\n")]},
+    {"id": "C03-benign-reschedule-slice-view", "prop": "C03", "benign": True,
+     "edits": [(_D, _TAKE, "            self.rescheduled.extend(self.buffer[size..].iter().rev().copied());\n")]},
+    {"id": "C03-benign-candidate-some-assign", "prop": "C03", "benign": True,
+     "edits": [(_D, "                    self.item_candidate.replace((event, self.buffer.len()));", "                    self.item_candidate = Some((event, self.buffer.len()));")]},
+    # near misses of the accepted idioms: must be reported
+    {"id": "C03-find-map-counter-after-step", "prop": "C03", "expect": "FOLD",
+     "edits": [(_D, _INPUT_LOOP, "        let mut consumed = 0;\n        let output = input.fill_buf()?.iter().find_map(|byte| {\n            let item = self.decode_byte(*byte)?;\n            consumed += 1;\n            Some(item)\n        });\n")]},
+    {"id": "C03-find-map-reversed", "prop": "C03", "expect": "FOLD",
+     "edits": [(_D, _INPUT_LOOP, "        let mut consumed = 0;\n        let output = input.fill_buf()?.iter().rev().find_map(|byte| {\n            consumed += 1;\n            self.decode_byte(*byte)\n        });\n")]},
+    {"id": "C03-find-map-skips-first", "prop": "C03", "expect": "FOLD",
+     "edits": [(_D, _INPUT_LOOP, "        let mut consumed = 0;\n        let output = input.fill_buf()?.iter().skip(1).find_map(|byte| {\n            consumed += 1;\n            self.decode_byte(*byte)\n        });\n")]},
+    {"id": "C03-find-map-two-steps", "prop": "C03", "expect": "FOLD",
+     "edits": [(_D, _INPUT_LOOP, "        let mut consumed = 0;\n        let output = input.fill_buf()?.iter().find_map(|byte| {\n            consumed += 1;\n            self.decode_byte(*byte).or_else(|| self.decode_byte(*byte))\n        });\n")]},
+    {"id": "C03-tags-last", "prop": "C03", "expect": "TAGORDER",
+     "edits": [(_D, "                        .iter()\n                        .next()\n                        .expect(\"[MatcherDecoder] found untagged accepting state\");",
+                "                        .last()\n                        .expect(\"[MatcherDecoder] found untagged accepting state\");")]},
+    {"id": "C03-tags-iter-max", "prop": "C03", "expect": "TAGORDER",
+     "edits": [(_D, "                        .iter()\n                        .next()\n                        .expect(\"[MatcherDecoder] found untagged accepting state\");",
+                "                        .iter()\n                        .max()\n                        .expect(\"[MatcherDecoder] found untagged accepting state\");")]},
+    {"id": "C03-reschedule-slice-view-forward", "prop": "C03", "expect": "LIFO",
+     "edits": [(_D, _TAKE, "            self.rescheduled.extend(self.buffer[size..].iter().copied());\n")]},
+    {"id": "C03-reschedule-push-front-loop", "prop": "C03", "expect": "LIFO",
+     "edits": [(_D, _TAKE, "            for index in size..self.buffer.len() {\n                self.rescheduled.push(self.buffer[index]);\n            }\n")]},
+    {"id": "C03-scan-helper-counts-only-items", "prop": "C03", "expect": "FOLD",
+     "edits": [(_D, _INPUT_LOOP + "        input.consume(consumed);\n\n        Ok(output)\n    }\n}\n\nimpl<T: Clone + Ord> MatcherDecoder<T> {\n",
+                "        let (consumed, output) = self.scan(input.fill_buf()?);\n        input.consume(consumed);\n\n        Ok(output)\n    }\n}\n\nimpl<T: Clone + Ord> MatcherDecoder<T> {\n"
+                "    fn scan(&mut self, chunk: &[u8]) -> (usize, Option<Result<T, MatcherBuffer>>) {\n"
+                "        let mut used = 0;\n        for byte in chunk.iter() {\n            if let Some(item) = self.decode_byte(*byte) {\n                return (used, Some(item));\n            }\n            used += 1;\n        }\n        (used, None)\n    }\n\n")]},
+]
